@@ -257,7 +257,8 @@ impl Property for C13 {
         // ---- the epochs that actually ran (through the final parameters) ----------------
         let mut ref_env = Env::reference(case.env.clock);
         ref_env.hash_seed = case.env.hash_seed;
-        let (expected, _) = run_env(&ref_env, |_| super::c04::reference_trainer(sc, run as i32));
+        let (expected, ref_info) = run_env(&ref_env, |_| super::c04::reference_trainer(sc, run as i32));
+        stats.execution(&ref_env, &ref_info);
         match expected {
             Ok(exp) => {
                 for (t, (e, g)) in exp.params.iter().zip(got.params.iter()).enumerate() {
